@@ -109,6 +109,11 @@ def gen_cases(tier):
                     yield {"driver": "split", "cfg": cfg.describe(), "op": op, "vbs": [[k, "w%d" % wi]], "report": False}
                     yield {"driver": "split", "cfg": cfg.describe(), "op": op, "vbs": [["int", "req"], [k, "w%d" % wi]], "report": False}
                     yield {"driver": "split", "cfg": cfg.describe(), "op": op, "vbs": [[k, "w%d" % wi], ["octets", "o"]], "report": False}
+    # Reports from a new boot epoch after the session has learnt a large engine time
+    for cfg in (Cfg("v3"), Cfg("v3", auth=1), Cfg("v3", auth=2, priv=2), Cfg("v3", auth=1, priv=1)):
+        for op in ("get", "get_many"):
+            for clock, new in (((5, 1000), (6, 3)), ((5, 1000), (5, 100)), ((5, 1000), (5, 5000)), ((1, 151), (2, 0)), ((7, 2147483647), (8, 1)), ((2147483646, 500), (2147483647, 0))):
+                yield {"driver": "split", "cfg": cfg.describe(), "op": op, "vbs": [], "report": True, "epoch": True, "clock": list(clock), "new_clock": list(new)}
     for driver in ("sync", "async"):
         for cfg in (Cfg("v1"), Cfg("v2c"), Cfg("v3"), Cfg("v3", auth=2, priv=2)):
             for op in ("get", "get_many"):
@@ -131,8 +136,40 @@ def build_reply(cfg, req, case):
     return drivers.reply_for(cfg, req, [(o, v.tlv) for o, v in vbs]), vbs
 
 
+def run_epoch_case(case):
+    """A session that has learnt a large engine time; the agent restarts and answers the next request with an
+    authentic notInTimeWindow Report from the new epoch (boots+1, small time): SnmpAuthError, as for any Report."""
+    mod, fast = drivers.subject()
+    cfg = Cfg.from_desc(case["cfg"])
+    op = case["op"]
+    arg = rb.oid_str(R) if op == "get" else [rb.oid_str(R), rb.oid_str(O1)]
+    w = drivers.SplitWorld(cfg)
+    try:
+        b0, t0 = case["clock"]
+        for rounds in range(2):
+            o = w.send(op, arg)
+            if o.kind != "ok":
+                return ("send-ok", None), o, 1
+            req = drivers.open_request(cfg, w.take_request(), strict=False, check_mac=False)
+            w.inject(drivers.reply_for(cfg, req, [(R, rb.enc_int(5))], boots=b0, time=t0 + rounds))
+            out = w.recv(op)
+            if out.kind != "ok":
+                return ("ok", "priming reply"), out, 2
+        o = w.send(op, arg)
+        req = drivers.open_request(cfg, w.take_request(), strict=False, check_mac=False)
+        vb = [((1, 3, 6, 1, 6, 3, 15, 1, 1, 2, 0), values.v_unsigned("counter32", 3).tlv)]
+        nb, nt = case["new_clock"]
+        w.inject(drivers.reply_for(cfg, req, vb, pdu_tag=rb.PDU_REPORT, boots=nb, time=nt, flags=1 if cfg.auth else 0))
+        out = w.recv(op)
+        return ("exc", "SnmpAuthError"), out, 6
+    finally:
+        w.close()
+
+
 def run_case(case, worlds=None):
     """Execute one case against the implementation; returns (exp, Outcome, n_calls)."""
+    if case.get("epoch"):
+        return run_epoch_case(case)
     cfg = Cfg.from_desc(case["cfg"])
     op = case["op"]
     arg = rb.oid_str(R) if op == "get" else [rb.oid_str(R), rb.oid_str(O1)]
@@ -201,7 +238,7 @@ def signature(case, exp, out):
         case["driver"],
         Cfg.from_desc(case["cfg"]).name,
         case["op"],
-("report-rid-" + case.get("report_rid", "echo")) if case.get("report") else ("silent" if case.get("silent") else "n=%d:%s" % (len(case["vbs"]), kinds)),
+("report-new-epoch" if case.get("epoch") else "report-rid-" + case.get("report_rid", "echo")) if case.get("report") else ("silent" if case.get("silent") else "n=%d:%s" % (len(case["vbs"]), kinds)),
         "" if not any(c == "dup" for _, c in case["vbs"]) else ":dup",
         out.exc_name if out.kind == "exc" else "value",
         exp[1] if exp[0] == "exc" else "value",
@@ -246,7 +283,7 @@ def run(tier):
     rec.rule = (
         "every reply of 0..N varbinds over the 17 value kinds (13 data types, NULL, 3 exception values) x OID choice "
         "(requested / other / duplicate of previous) x {get, get_many} x configurations; plus v3 Report in place of the "
-        "response and a silent agent through the public clients. Non-trivial = at least one varbind, or Report, or silence; "
+        "response (also an authentic Report from a new boot epoch after the session has learnt a large engine time) and a silent agent through the public clients. Non-trivial = at least one varbind, or Report, or silence; "
         "every enumerated case is distinct by construction."
     )
     rec.assume(
